@@ -365,7 +365,7 @@ func C14(tier string) int {
 	run.Coverage["scalar_documents"] = len(docs)
 	run.Coverage["distinct_nontrivial"] = len(distinct) + accepted
 	run.Coverage["exhaustive"] = true
-	run.Coverage["rule"] = "typing: every sequence up to the length bound over starts + 59 step instances (+ a trailing aggregate), marks defined before use (the last level is thinned by a fixed stride: 1 in 5 at length 4 quick, 1 in 10 at length 5 thorough; all shorter programs are complete); filters: 12 operators x all argument shapes of the C08 grid x 10 scalar documents, then and/or/not expressions of nesting <=2 (3) in which every operator occurs as an atom (<=2 atoms per operator), compared on the documents on which all atoms of the expression are translated faithfully"
+	run.Coverage["rule"] = "typing: every sequence up to the length bound over starts + 60 step instances (+ a trailing aggregate), marks defined before use (the last level is thinned by a fixed stride: 1 in 5 at length 4 quick, 1 in 10 at length 5 thorough; all shorter programs are complete); filters: 12 operators x all argument shapes of the C08 grid x 10 scalar documents, then and/or/not expressions of nesting <=2 (3) in which every operator occurs as an atom (<=2 atoms per operator), compared on the documents on which all atoms of the expression are translated faithfully"
 	if len(samples) == 0 {
 		samples = []string{"V().as(m1).outE(x).select(m1)"}
 	}
